@@ -22,6 +22,21 @@ def main():
     # with synchronous=off SQLite writes a complete (valid) journal header at once, so a live
     # writer in RESERVED has a journal that looks hot to anyone who does not check the lock
     c.execute("pragma synchronous=%s" % ("off" if nosync else "full"))
+    if scenario.startswith("create-first"):
+        if "@" in scenario:
+            c.execute("pragma page_size=%d" % int(scenario.split("@")[1]))
+        # the very first transaction on a brand-new (0 byte) database file
+        c.execute("pragma cache_size=8")
+        c.execute("begin")
+        c.execute("create table meta(version integer)")
+        c.execute("insert into meta values(1)")
+        c.execute("create table t(id integer primary key, v, ver integer, pad text)")
+        c.execute("create index ix_t_v on t(v)")
+        c.executemany("insert into t(v, ver, pad) values(?,?,?)", [(i, 1, "first" + "x" * 150) for i in range(200)])
+        c.execute("commit")
+        c.close()
+        print("DONE", 1, flush=True)
+        return
     ver = c.execute("select version from meta").fetchone()[0] + 1
     spill = scenario.startswith("spill") or scenario in ("update-many", "grow", "delete-freelist", "two-statements")
     if spill:
